@@ -288,6 +288,10 @@ func (c *MJSocialComponent) Render(w io.StringWriter) error {
 				if err := socialElement.Render(w); err != nil {
 					return err
 				}
+			} else if raw, ok := child.(*MJRawComponent); ok {
+				if err := raw.Render(w); err != nil {
+					return err
+				}
 			}
 		}
 
@@ -333,7 +337,19 @@ func (c *MJSocialComponent) Render(w io.StringWriter) error {
 		}
 
 		// Render social elements with coordinated MSO wrappers
-		for i, socialElement := range socialElements {
+		// Elements in document order; raw content between them is written where it stands
+		i := 0
+		for _, child := range c.Children {
+			if raw, ok := child.(*MJRawComponent); ok {
+				if err := raw.Render(w); err != nil {
+					return err
+				}
+				continue
+			}
+			socialElement, ok := child.(*MJSocialElementComponent)
+			if !ok {
+				continue
+			}
 			previousWrap := socialElement.SetMSOConditionalWrap(false)
 			if err := socialElement.Render(w); err != nil {
 				socialElement.SetMSOConditionalWrap(previousWrap)
@@ -346,6 +362,7 @@ func (c *MJSocialComponent) Render(w io.StringWriter) error {
 					return err
 				}
 			}
+			i++
 		}
 
 		// MSO conditional closing
